@@ -112,6 +112,31 @@ Theorem C14_shipped_agrees_off_accessspec : forall reqs params,
 Proof. exact shipped_agrees_off_accessspec. Qed.
 Print Assumptions C14_shipped_agrees_off_accessspec.
 
+(* One command, one request — also when the reader answers with a fault (failing LLRPStatus,
+   ERROR_MESSAGE, reply of another type, undecodable reply) while the connection stays up:
+   what is on the wire is the first request of the fault-free run exactly once, and the command
+   returns an error.  (run_reply with a successful answer IS run: C14_run_reply_ok.) *)
+Theorem C14_fault_reply_one_request : forall b s c,
+  sent (run_reply b (AFault :: s) c) = firstn 1 (sent (run b c)) /\
+  failed (run_reply b (AFault :: s) c) = true.
+Proof. exact fault_reply_one_request. Qed.
+Print Assumptions C14_fault_reply_one_request.
+
+Theorem C14_run_reply_ok : forall b script c,
+  (script = [] \/ exists s, script = AOk :: s) -> run_reply b script c = run b c.
+Proof. exact run_reply_ok. Qed.
+Print Assumptions C14_run_reply_ok.
+
+(* whatever the replies, a write command puts copies of ONE request on the wire, at most
+   maxSendAttempts = 3 of them, and a single one unless the llrp.Client was closed under it
+   (that retry is C15's subject) *)
+Theorem C14_write_reply_shape : forall b script reqs params,
+  exists q n, (n <= max_send_attempts)%nat /\
+    (sent (run_reply b script (CWrite reqs params)) = repeat q n) /\
+    ((forall t, script <> AClosed :: t) -> (n <= 1)%nat).
+Proof. exact write_reply_shape. Qed.
+Print Assumptions C14_write_reply_shape.
+
 (* non-vacuity: concrete commands *)
 Example C14_example_enable :
   run true (CWrite [mkReq "ROSpecID" TUint32 AMissing AMissing; mkReq "Action" TString AMissing AMissing]
@@ -132,6 +157,16 @@ Example C14_example_read :
   run true (CRead [mkReq "ROSpec" TObject AMissing AMissing; mkReq "ReaderConfig" TObject AMissing AMissing;
                    mkReq "Nope" TObject AMissing AMissing; mkReq "AccessSpec" TObject AMissing AMissing])
   = mkOut [GetROSpecs; GetReaderConfig] true.
+Proof. vm_compute. reflexivity. Qed.
+Example C14_example_fault :
+  run_reply true [AFault]
+    (CWrite [mkReq "ROSpecID" TUint32 AMissing AMissing; mkReq "Action" TString AMissing AMissing]
+            [mkParam "ROSpecID" TUint32 (VU32 9); mkParam "Action" TString (VStr "Delete")])
+  = mkOut [DeleteROSpec 9] true.
+Proof. vm_compute. reflexivity. Qed.
+Example C14_example_closed_then_ok :
+  run_reply true [AClosed; AClosed; AOk] (CRead [mkReq "ROSpec" TObject AMissing AMissing])
+  = mkOut [GetROSpecs; GetROSpecs; GetROSpecs] false.
 Proof. vm_compute. reflexivity. Qed.
 Example C14_example_bad_vendor :
   run true (CWrite [mkReq "X" TString (AStr "4294967296") (AStr "21")] [mkParam "X" TString (VStr "")])
